@@ -17,9 +17,12 @@ import (
 	"time"
 
 	cluster "github.com/envoyproxy/go-control-plane/envoy/config/cluster/v3"
+	corev3 "github.com/envoyproxy/go-control-plane/envoy/config/core/v3"
 	endpoint "github.com/envoyproxy/go-control-plane/envoy/config/endpoint/v3"
 	listener "github.com/envoyproxy/go-control-plane/envoy/config/listener/v3"
 	route "github.com/envoyproxy/go-control-plane/envoy/config/route/v3"
+
+	"google.golang.org/protobuf/types/known/wrapperspb"
 
 	meshconfig "istio.io/api/mesh/v1alpha1"
 	"istio.io/istio/pilot/pkg/features"
@@ -234,9 +237,13 @@ func buildWorld(m *meshCase) (w *world, fail string) {
 			}
 		case "automtls":
 			mc.EnableAutoMtls.Value = v == "1"
+		case "statname":
+			mc.OutboundClusterStatName = "%SERVICE%_%SERVICE_PORT_NAME%_%SERVICE_PORT%"
+			mc.InboundClusterStatName = "%SERVICE%_%SERVICE_PORT%"
 		}
 	}
 	setAmbient(m.opts["ambient"] == "1")
+	features.EnableQUICListeners = m.opts["quic"] == "1"
 	kube := append([]string{}, m.kube...)
 	if m.opts["ambient"] == "1" {
 		// the ambient index reads services / workloads from the Kubernetes side: mirror those config objects there
@@ -277,6 +284,10 @@ func buildWorld(m *meshCase) (w *world, fail string) {
 				},
 			})
 		}
+		// every AddInstance triggers a (debounced, asynchronous) push-context rebuild: wait until the last one is
+		// committed, or a proxy would be served from whichever context happens to be current (observed: the embedded
+		// endpoints of DNS clusters, and with them the clusters themselves, came and went between runs)
+		w.s.EnsureSynced(w.fl)
 	})
 	if fail != "" {
 		return w, fail
@@ -306,6 +317,9 @@ func epPort(e epDesc, servicePort int) uint32 {
 
 // snapshot is one full state-of-the-world push for one proxy.
 type snapshot struct {
+	// static: the listeners of the proxy's bootstrap (status / prometheus port), known from the proxy metadata; they are
+	// not part of LDS but occupy their addresses: judged together with the LDS listeners for name / address uniqueness
+	static    []*listener.Listener
 	listeners []*listener.Listener
 	routes    []*route.RouteConfiguration
 	clusters  []*cluster.Cluster
@@ -316,6 +330,36 @@ type snapshot struct {
 	unkRds, unkRdsAnswered int
 	unkEds, unkEdsAnswered int
 	undecodable            []string
+	anySkipped             int // google.protobuf.Any values whose type is not linked in: not judged by the API validation
+}
+
+// allListeners = bootstrap listeners, then the LDS listeners.
+func (sn *snapshot) allListeners() []*listener.Listener {
+	if len(sn.static) == 0 {
+		return sn.listeners
+	}
+	return append(append([]*listener.Listener{}, sn.static...), sn.listeners...)
+}
+
+func staticListeners(px *model.Proxy) []*listener.Listener {
+	var out []*listener.Listener
+	add := func(name string, port int) {
+		if port <= 0 {
+			return
+		}
+		for _, l := range out {
+			if int(l.GetAddress().GetSocketAddress().GetPortValue()) == port {
+				return
+			}
+		}
+		out = append(out, &listener.Listener{Name: "bootstrap-" + name, Address: &corev3.Address{Address: &corev3.Address_SocketAddress{
+			SocketAddress: &corev3.SocketAddress{Address: "0.0.0.0", PortSpecifier: &corev3.SocketAddress_PortValue{PortValue: uint32(port)}}}}})
+	}
+	if px.Type == model.SidecarProxy && px.Metadata != nil {
+		add("status-port", px.Metadata.EnvoyStatusPort)
+		add("prometheus-port", px.Metadata.EnvoyPrometheusPort)
+	}
+	return out
 }
 
 var (
@@ -356,6 +400,22 @@ func (w *world) proxy(p pushDesc) *model.Proxy {
 			px.Metadata.ClusterID = "Kubernetes"
 		case "unpriv":
 			px.Metadata.UnprivilegedPod = v
+		case "status":
+			px.Metadata.EnvoyStatusPort, _ = strconv.Atoi(v)
+		case "prom":
+			px.Metadata.EnvoyPrometheusPort, _ = strconv.Atoi(v)
+		case "proxycfg": // PROXY_CONFIG of the node: the fields generation reads
+			pc := &model.NodeMetaProxyConfig{}
+			switch v {
+			case "stats":
+				pc.ProxyStatsMatcher = &meshconfig.ProxyConfig_ProxyStatsMatcher{InclusionPrefixes: []string{"cluster.outbound"}}
+			case "headers":
+				pc.ProxyHeaders = &meshconfig.ProxyConfig_ProxyHeaders{RequestId: &meshconfig.ProxyConfig_ProxyHeaders_RequestId{Disabled: wrapperspb.Bool(true)},
+					AttemptCount: &meshconfig.ProxyConfig_ProxyHeaders_AttemptCount{Disabled: wrapperspb.Bool(true)}}
+			case "concurrency":
+				pc.Concurrency = wrapperspb.Int32(2)
+			}
+			px.Metadata.ProxyConfig = pc
 		}
 	}
 	return w.s.SetupProxy(px)
@@ -364,7 +424,7 @@ func (w *world) proxy(p pushDesc) *model.Proxy {
 // generate runs the real generators of the discovery server (the map bootstrap.InitGenerators fills)
 // exactly as a full push would: CDS, then EDS for what CDS names, LDS, then RDS for what LDS names.
 func (w *world) generate(px *model.Proxy) (*snapshot, string) {
-	sn := &snapshot{}
+	sn := &snapshot{static: staticListeners(px)}
 	push := w.s.PushContext()
 	req := &model.PushRequest{Push: push, Forced: true, Reason: model.NewReasonStats(model.ConfigUpdate), Start: time.Now()}
 	gen := func(typ string, names []string) (model.Resources, error) {
@@ -466,6 +526,7 @@ func (w *world) generate(px *model.Proxy) (*snapshot, string) {
 	if fail != "" {
 		return nil, fail
 	}
+	sn.canonicalOrder()
 	have := map[string]bool{}
 	for _, e := range sn.endpoints {
 		have[e.ClusterName] = true
@@ -484,6 +545,163 @@ func (w *world) generate(px *model.Proxy) (*snapshot, string) {
 			sn.unkRdsAnswered++
 		}
 	}
+	sn.canonicalOrder()
+	return sn, ""
+}
+
+// generateIncremental is what a proxy holds after an INCREMENTAL push on top of the full snapshot sn0: the update of
+// one config key (nothing really changed, the push context is the same) goes through the real generators un-forced -
+// delta CDS (GenerateDeltas against the watched cluster names), partial EDS, LDS / RDS if the key needs them - and the
+// answer is merged into sn0 the way the client does (removed names dropped, same names replaced, new ones added).
+// canonicalOrder sorts the resources of every response by name (stable: resources of one name keep their order). RDS and
+// EDS iterate the watched names, a Go set, and the listener builders iterate maps: the order of the resources within one
+// response is random, means nothing to Envoy and to the property, and would make the reported detail vary from run to run.
+func (sn *snapshot) canonicalOrder() {
+	sort.SliceStable(sn.listeners, func(i, j int) bool { return sn.listeners[i].Name < sn.listeners[j].Name })
+	sort.SliceStable(sn.routes, func(i, j int) bool { return sn.routes[i].Name < sn.routes[j].Name })
+	sort.SliceStable(sn.clusters, func(i, j int) bool { return sn.clusters[i].Name < sn.clusters[j].Name })
+	sort.SliceStable(sn.endpoints, func(i, j int) bool { return sn.endpoints[i].ClusterName < sn.endpoints[j].ClusterName })
+}
+
+func (w *world) generateIncremental(px *model.Proxy, sn0 *snapshot, keys ...model.ConfigKey) (*snapshot, string) {
+	sn := &snapshot{static: sn0.static, reqRds: sn0.reqRds, reqEds: sn0.reqEds, unkRds: sn0.unkRds, unkEds: sn0.unkEds,
+		unkRdsAnswered: sn0.unkRdsAnswered, unkEdsAnswered: sn0.unkEdsAnswered}
+	push := w.s.PushContext()
+	req := &model.PushRequest{Push: push, Forced: false, ConfigsUpdated: sets.New(keys...), Reason: model.NewReasonStats(model.ConfigUpdate), Start: time.Now()}
+	fail := guarded("generate-incremental", 20*time.Second, func() {
+		// CDS, delta
+		var names []string
+		for _, c := range sn0.clusters {
+			names = append(names, c.Name)
+		}
+		wr := &model.WatchedResource{TypeUrl: v3.ClusterType, ResourceNames: sets.New(names...)}
+		var (
+			res     model.Resources
+			removed model.DeletedResources
+			used    bool
+			err     error
+		)
+		if dg, ok := w.s.Discovery.Generators[v3.ClusterType].(model.XdsDeltaResourceGenerator); ok {
+			res, removed, _, used, err = dg.GenerateDeltas(px, req, wr)
+		} else {
+			res, _, err = w.s.Discovery.Generators[v3.ClusterType].Generate(px, wr, req)
+		}
+		if err != nil {
+			panic("cds error: " + err.Error())
+		}
+		var got []*cluster.Cluster
+		for _, r := range res {
+			c := &cluster.Cluster{}
+			if err := r.Resource.UnmarshalTo(c); err != nil {
+				sn.undecodable = append(sn.undecodable, "Cluster:"+r.Name)
+				continue
+			}
+			got = append(got, c)
+		}
+		switch {
+		case res == nil && len(removed) == 0:
+			sn.clusters = sn0.clusters
+		case !used:
+			sn.clusters = got
+		default:
+			gone := sets.New(removed...)
+			repl := map[string][]*cluster.Cluster{} // a name sent twice in one response stays twice (Envoy rejects that)
+			for _, c := range got {
+				repl[c.Name] = append(repl[c.Name], c)
+			}
+			seen := map[string]bool{}
+			for _, c := range sn0.clusters {
+				if gone.Contains(c.Name) {
+					continue
+				}
+				if n, ok := repl[c.Name]; ok {
+					if !seen[c.Name] {
+						sn.clusters = append(sn.clusters, n...)
+					}
+					seen[c.Name] = true
+					continue
+				}
+				sn.clusters = append(sn.clusters, c)
+			}
+			for _, c := range got { // new names, in the order sent
+				if !seen[c.Name] {
+					sn.clusters = append(sn.clusters, c)
+				}
+			}
+		}
+		// EDS, partial
+		wr = &model.WatchedResource{TypeUrl: v3.EndpointType, ResourceNames: sets.New(sn0.reqEds...)}
+		res, _, err = w.s.Discovery.Generators[v3.EndpointType].Generate(px, wr, req)
+		if err != nil {
+			panic("eds error: " + err.Error())
+		}
+		upd := map[string]*endpoint.ClusterLoadAssignment{}
+		var order []string
+		for _, r := range res {
+			c := &endpoint.ClusterLoadAssignment{}
+			if err := r.Resource.UnmarshalTo(c); err != nil {
+				sn.undecodable = append(sn.undecodable, "ClusterLoadAssignment:"+r.Name)
+				continue
+			}
+			if _, dup := upd[c.ClusterName]; dup {
+				order = append(order, c.ClusterName+"\x00dup")
+			}
+			upd[c.ClusterName] = c
+			order = append(order, c.ClusterName)
+		}
+		had := map[string]bool{}
+		for _, e := range sn0.endpoints {
+			had[e.ClusterName] = true
+			if n, ok := upd[e.ClusterName]; ok {
+				sn.endpoints = append(sn.endpoints, n)
+			} else {
+				sn.endpoints = append(sn.endpoints, e)
+			}
+		}
+		for _, n := range order {
+			name := strings.TrimSuffix(n, "\x00dup")
+			if !had[name] || name != n {
+				sn.endpoints = append(sn.endpoints, upd[name])
+			}
+		}
+		// LDS / RDS: regenerated as a whole if the key needs them, else kept
+		wr = &model.WatchedResource{TypeUrl: v3.ListenerType, ResourceNames: sets.New[string]()}
+		res, _, err = w.s.Discovery.Generators[v3.ListenerType].Generate(px, wr, req)
+		if err != nil {
+			panic("lds error: " + err.Error())
+		}
+		if res == nil {
+			sn.listeners = sn0.listeners
+		}
+		for _, r := range res {
+			l := &listener.Listener{}
+			if err := r.Resource.UnmarshalTo(l); err != nil {
+				sn.undecodable = append(sn.undecodable, "Listener:"+r.Name)
+				continue
+			}
+			sn.listeners = append(sn.listeners, l)
+		}
+		wr = &model.WatchedResource{TypeUrl: v3.RouteType, ResourceNames: sets.New(sn0.reqRds...)}
+		res, _, err = w.s.Discovery.Generators[v3.RouteType].Generate(px, wr, req)
+		if err != nil {
+			panic("rds error: " + err.Error())
+		}
+		if res == nil {
+			sn.routes = sn0.routes
+		}
+		for _, r := range res {
+			rc := &route.RouteConfiguration{}
+			if err := r.Resource.UnmarshalTo(rc); err != nil {
+				sn.undecodable = append(sn.undecodable, "RouteConfiguration:"+r.Name)
+				continue
+			}
+			sn.routes = append(sn.routes, rc)
+		}
+	})
+	if fail != "" {
+		return nil, fail
+	}
+	sn.canonicalOrder()
 	return sn, ""
 }
 
